@@ -1,3 +1,4 @@
+import P2PVerif.Lemmas.SrcMbapp
 import P2PVerif.Model.Reasm
 import P2PVerif.Lemmas.Reasm
 /-! # C10 — reassembly never invents or mixes messages
@@ -6,7 +7,7 @@ loss of genuine fragments of any number of messages from any number of sources, 
 the reassembly models of s/fragswarm and p/mbapp. The distinct-keys hypotheses are what the senders' counters
 provide: a source never has two messages in flight under one (id) resp. (origin time, counter). -/
 namespace P2PVerif.C10
-open P2PVerif P2PVerif.Reasm
+open P2PVerif P2PVerif.Reasm P2PVerif.Src P2PVerif.Go P2PVerif.SrcKad P2PVerif.SrcFrag P2PVerif.SrcMbapp
 
 /-- ⊢ fragswarm: every delivered payload is exactly the payload of the message whose fragment triggered the
     delivery — never a mixture, truncation or concatenation — at every inner MTU. -/
@@ -71,5 +72,62 @@ example :
     let m : MMsg := ⟨0, {}, [1, 2, 3, 4, 5], (Mbapp.send 26 1000 {} [1, 2, 3, 4, 5]).getD []⟩
     ((mrun 1000 [m] [.recv 0 2, .recv 0 0, .recv 0 1] [] []).2).map (fun d => (d.1, d.2.2)) = [(0, [1, 2, 3, 4, 5])] := by
   decide +kernel
+
+/-! ### about the definitions regenerated from the Go source (`Gen/Src.lean`) -/
+
+/-- ⊢ (source) what fragswarm's `newMessage` frames, its `parseMessage` reads back exactly: every message id, every
+    part < total, every payload. -/
+theorem src_frag_header_roundtrip (id : UInt32) (part total : UInt8) (data : Go.Bytes) (h : part < total) :
+    (fragswarm.newMessage id part total data >>= fun v => fragswarm.parseMessage v.flatten)
+      = .ok (id, part, total, data, none) := parse_new id part total data h
+
+/-- ⊢ (source) `parseMessage` IS the model's `Frag.parse` (the function the reassembly theorems above are about), on
+    every byte string: same verdict, same fields, same payload. -/
+theorem src_parseMessage_is_model (x : Go.Bytes) :
+    (match Frag.parse (nb x) with
+     | some (id, part, total, d) => ∃ data, fragswarm.parseMessage x
+         = .ok (UInt32.ofNat id, UInt8.ofNat part, UInt8.ofNat total, data, none) ∧ nb data = d
+     | none => ∃ e, fragswarm.parseMessage x = .ok (0, 0, 0, [], some e)) := by
+  rw [parse_eq_parseK, parseMessage_eq]
+  cases parseK (nb x) with
+  | none => exact ⟨_, rfl⟩
+  | some r =>
+    obtain ⟨id, part, total, k⟩ := r
+    exact ⟨_, rfl, nb_drop x k⟩
+
+/-- the regenerated collector driven by a list of (part index, body) pairs -/
+def srcAddParts (c : mbapp.collectorT) : List (Nat × Go.Bytes) → Go.M mbapp.collectorT
+  | [] => pure c
+  | (k, d) :: ops => do
+    let (_, c') ← mbapp.collector.addPart c (k : Int) d
+    srcAddParts c' ops
+
+/-- ⊢ (source) mbapp's `collector` refines the model's `Col` over EVERY history of parts (any indices, any bodies,
+    duplicates, contradictions): no step faults, the buffer and the bitmap stay those of the model, and `isComplete`
+    answers "all parts seen" — so the model-level theorems above speak about the code as it is now. -/
+theorem src_collector_refines (pc ts : Nat) (ops : List (Nat × Go.Bytes)) :
+    ∃ c, (mbapp.newCollector (pc : Int) (ts : Int) >>= fun c0 => srcAddParts c0 ops) = .ok c ∧
+      colRel c (ops.foldl (fun m op => m.addPart op.1 (nb op.2)) (Mbapp.Col.new pc ts)) ∧
+      mbapp.collector.isComplete c
+        = .ok ((ops.foldl (fun m op => m.addPart op.1 (nb op.2)) (Mbapp.Col.new pc ts)).bits.all id) := by
+  obtain ⟨c0, h0, hok0, hrel0⟩ := newCollector_model pc ts
+  rw [h0]
+  simp only [bind_ok]
+  have : ∀ (ops : List (Nat × Go.Bytes)) (c : mbapp.collectorT) (m : Mbapp.Col), colOK c → colRel c m →
+      ∃ c', srcAddParts c ops = .ok c' ∧ colOK c' ∧ colRel c' (ops.foldl (fun m op => m.addPart op.1 (nb op.2)) m) := by
+    intro ops
+    induction ops with
+    | nil => intro c m hok hrel; exact ⟨c, rfl, hok, hrel⟩
+    | cons op ops ih =>
+      intro c m hok hrel
+      obtain ⟨k, d⟩ := op
+      obtain ⟨e, c1, h1, hok1, hrel1⟩ := addPart_model c m hok hrel k d
+      obtain ⟨c', h', hok', hrel'⟩ := ih c1 _ hok1 hrel1
+      refine ⟨c', ?_, hok', hrel'⟩
+      simp only [srcAddParts, h1, bind_ok]
+      exact h'
+  obtain ⟨c, hc, hok, hrel⟩ := this ops c0 _ hok0 hrel0
+  refine ⟨c, hc, hrel, ?_⟩
+  rw [isComplete_eq c hok, hrel.2.2]
 
 end P2PVerif.C10
